@@ -70,6 +70,17 @@ func genProgram(r *rng, p genParams) *Prog {
 	pr := &Prog{}
 	add := func(s Step) { pr.Steps = append(pr.Steps, s) }
 	sel := func() int { return r.intn(1 << 12) }
+	// phi (nested operand structure) and call (void/non-void) are drawn more often.
+	instKind := func() int {
+		k := r.intn(nInstKinds + 8)
+		switch {
+		case k >= nInstKinds+3:
+			return 18
+		case k >= nInstKinds:
+			return 11
+		}
+		return k
+	}
 	name := func() string { return namePool[r.intn(len(namePool))] }
 	// A little scaffolding first so that most steps apply.
 	ng := r.intn(3)
@@ -89,7 +100,7 @@ func genProgram(r *rng, p genParams) *Prog {
 			if r.chance(1, 2) {
 				add(Step{Op: "alias", K: r.intn(2), A: sel(), Name: name()})
 			} else {
-				add(Step{Op: "typedef", K: r.intn(3), A: sel(), Name: name()})
+				add(Step{Op: "typedef", K: r.intn(15), A: sel(), Name: name()})
 			}
 		case x < 6:
 			add(Step{Op: "global", K: []int{0, 1, 2, 3, 4, 6}[r.intn(6)], A: sel(), Name: name()})
@@ -98,13 +109,17 @@ func genProgram(r *rng, p genParams) *Prog {
 		case x < 20:
 			add(Step{Op: "block", A: sel(), Name: name()})
 		case x < 58:
-			add(Step{Op: "inst", K: r.intn(nInstKinds), A: sel(), B: sel(), C: sel(), D: sel(), Name: name()})
+			add(Step{Op: "inst", K: instKind(), A: sel(), B: sel(), C: sel(), D: sel(), Name: name()})
 		case x < 68:
-			add(Step{Op: "insert", K: r.intn(nInstKinds), A: sel(), B: sel(), C: sel(), D: sel(), P: sel(), Name: name()})
+			add(Step{Op: "insert", K: instKind(), A: sel(), B: sel(), C: sel(), D: sel(), P: sel(), Name: name()})
 		case x < 80:
 			add(Step{Op: "term", K: r.intn(nTermKinds), A: sel(), B: sel(), C: sel(), D: sel(), Name: name()})
-		case x < 90:
+		case x < 85:
 			add(Step{Op: "setname", K: r.intn(6), A: sel(), B: sel(), C: sel(), Name: name()})
+		case x < 88:
+			add(Step{Op: "setop", K: r.intn(3), A: sel(), B: sel(), C: sel(), D: sel(), P: sel()})
+		case x < 90:
+			add(Step{Op: "setinc", K: r.intn(3), A: sel(), B: sel(), C: sel(), D: sel(), P: sel()})
 		case x < 95:
 			add(Step{Op: "remove", A: sel(), B: sel(), C: sel()})
 		default:
@@ -113,7 +128,7 @@ func genProgram(r *rng, p genParams) *Prog {
 			} else if p.BlockAddr && r.chance(1, 2) {
 				add(Step{Op: "global", K: 5, A: sel(), B: sel(), Name: name()})
 			} else {
-				add(Step{Op: "inst", K: r.intn(nInstKinds), A: sel(), B: sel(), C: sel(), D: sel(), Name: name()})
+				add(Step{Op: "inst", K: instKind(), A: sel(), B: sel(), C: sel(), D: sel(), Name: name()})
 			}
 		}
 	}
@@ -570,6 +585,15 @@ func (mc *machine) exec1(s Step) bool {
 			st.Opaque = true
 			t = st
 		}
+		if s.K%5 == 3 {
+			// An identified struct type used by a global without being added to
+			// m.TypeDefs (legal through the API; the definition is simply absent).
+			st := types.NewStruct(types.I64, types.I1)
+			st.SetName(name)
+			g := mc.m.NewGlobalDef(mc.uniq(mc.gnames, s.Name), constant.NewZeroInitializer(st))
+			mc.globals = append(mc.globals, g)
+			return true
+		}
 		td := mc.m.NewTypeDef(name, t)
 		if s.K%3 != 2 {
 			g := mc.m.NewGlobalDef(mc.uniq(mc.gnames, s.Name), constant.NewZeroInitializer(td))
@@ -783,6 +807,106 @@ func (mc *machine) exec1(s Step) bool {
 				return false
 			}
 			inv.SetName(mc.uniq(f.lnames, s.Name))
+		}
+		return true
+	case "setinc":
+		// Replace (or append) one incoming value of a phi by a new Incoming object.
+		f := mc.fn(s.A)
+		if f == nil {
+			return false
+		}
+		var phis []*ir.InstPhi
+		for _, b := range f.f.Blocks {
+			for _, in := range b.Insts {
+				if p, ok := in.(*ir.InstPhi); ok {
+					phis = append(phis, p)
+				}
+			}
+		}
+		if len(phis) == 0 {
+			return false
+		}
+		phi := phis[s.B%len(phis)]
+		x := mc.pick(f, tI32, s.C)
+		pred := mc.block(f, s.D)
+		if uv := value.Value(phi); x == uv {
+			return false
+		}
+		inc := ir.NewIncoming(x, pred)
+		lst := mc.ops[phi]
+		if s.K%3 == 0 {
+			phi.Incs = append(phi.Incs, inc)
+			mc.use(phi, x, pred)
+		} else {
+			i := s.P % len(phi.Incs)
+			old := phi.Incs[i]
+			phi.Incs[i] = inc
+			for _, o := range []value.Value{old.X, old.Pred} {
+				for k, v := range lst {
+					if v == o {
+						lst = append(lst[:k:k], lst[k+1:]...)
+						mc.uses[o]--
+						break
+					}
+				}
+			}
+			mc.ops[phi] = lst
+			mc.use(phi, x, pred)
+		}
+		mc.probes["phi incoming replaced or appended"]++
+		return true
+	case "setop":
+		// Replace one operand of an instruction or terminator, through the live
+		// operand view, by another value of the same type from the same function.
+		f := mc.fn(s.A)
+		b := mc.block(f, s.B)
+		if b == nil {
+			return false
+		}
+		var user interface{}
+		var ops []*value.Value
+		if s.K%3 == 0 && b.Term != nil {
+			user, ops = b.Term, b.Term.Operands()
+		} else if len(b.Insts) > 0 {
+			in := b.Insts[s.C%len(b.Insts)]
+			user, ops = in, in.Operands()
+		}
+		if len(ops) == 0 {
+			return false
+		}
+		op := ops[s.D%len(ops)]
+		if *op == nil {
+			return false
+		}
+		old := *op
+		t := old.Type()
+		var repl value.Value
+		switch {
+		case t.Equal(types.Label):
+			repl = mc.block(f, s.P)
+		case t.Equal(tI1), t.Equal(tI8), t.Equal(tI32), t.Equal(tI64), t.Equal(tF64), t.Equal(tP32), t.Equal(tP8), t.Equal(tVec), t.Equal(tPair):
+			repl = mc.pick(f, t, s.P)
+		}
+		if repl == nil || repl == old {
+			return false
+		}
+		if uv, ok := user.(value.Value); ok && repl == uv {
+			return false // an instruction must not become its own operand here
+		}
+		*op = repl
+		// bookkeeping of uses
+		lst := mc.ops[user]
+		for i, v := range lst {
+			if v == old {
+				lst[i] = repl
+				mc.uses[old]--
+				mc.uses[repl]++
+				break
+			}
+		}
+		mc.probes["operand replaced through Operands()"]++
+		if mc.printedOnce {
+			mc.probes["operand replaced through Operands() after a print"]++
 		}
 		return true
 	case "remove":
